@@ -208,6 +208,17 @@ CLAIMED = {
              "values read back unchanged.",
         note="variations one at a time (no cross product), one representative value per type",
         design="5/C03"),
+    "C10": dict(
+        technique="implementation-shaped TLA+ model TcpSend (send loop vs bounded kernel buffer, short writes, reader pace, reset) "
+                  "checked by TLC incl. liveness + the real TcpServerConnection/TcpClientConnection executed on a simulated "
+                  "socket/select layer under a deterministic scheduler; peer byte streams validated by TLC (TcpJudge)",
+        text="TLC checks that the send loop puts every byte of a message reported as sent on the stream exactly once and in order "
+             "for every short-write/drain/reset interleaving (the original loop ignoring send()'s return value is the regression "
+             "witness TLC must refute). The real TCP connection classes run on a simulated socket layer with capacities 1 B..64 KiB, "
+             "short-write policies, reader pacings and message sizes 1 B..3 MiB (around the capacity and the 1 MiB packet split); "
+             "what the peer reads is validated by TLC against the reported results.",
+        note="kernel TCP behaviour is the simulated socket layer (assumption); real loopback sockets are not used",
+        design="5/C10"),
 }
 
 NOT_YET = "check not built yet in this round (specification and harness in progress; see DESIGN.md section 9)"
